@@ -37,7 +37,8 @@ def run(chk):
     octs += [chk.rng.randint(-25, 30) for _ in range(2)]
     grid = [(l, a, o) for l in range(7) for a in range(-3, 4) for o in octs]
     chk.rule = ('exhaustive grid 7 letters x 7 alterations (-3..3) x octaves -1..9 (+ far/random), import and '
-                'double export; plus malformed spellings (mixed case, naturals, digits, empty)')
+                'double export; the same grid through ONE importer and ONE exporter instance in ascending, descending and shuffled order; '
+                'plus malformed spellings (mixed case, naturals, digits, empty)')
     chk.exhaustive = True
     model = core.Model() if b.modelrun_ok else None
     spec = model.batch([('spell', [str(l), str(a), str(o)]) for l, a, o in grid]) if model else None
@@ -71,6 +72,43 @@ def run(chk):
             chk.violation('export', f'export_pitch({name},{o}) raised', {'name': name, 'octave': o})
         if i % 97 == 0:
             chk.sample({'spelling': text, 'import': r, 'export_twice': e})
+    # ---- histories: ONE importer and ONE exporter instance over the whole grid, in several orders: the answers must be
+    # those of fresh instances (the codec keeps no state between calls)
+    if spec:
+        texts = [s_[3:].split('|')[0] for s_ in spec]
+        names = [s_[3:].split('|')[1] for s_ in spec]
+        orders = [list(range(len(grid))), list(reversed(range(len(grid))))]
+        for _ in range(3 if chk.tier == 'thorough' else 1):
+            o_ = list(range(len(grid)))
+            chk.rng.shuffle(o_)
+            orders.append(o_)
+        for order in orders:
+            imp, exp_ = kp.HumdrumPitchImporter(), kp.HumdrumPitchExporter()
+            bad_h = None
+            for k in order:
+                l, a, o = grid[k]
+                chk.evaluations += 1
+                try:
+                    p = imp.import_pitch(texts[k])
+                    got_i = f'{p.name}|{p.octave}'
+                except Exception:
+                    got_i = 'raise'
+                try:
+                    q = kp.AgnosticPitch(names[k], o)
+                    t1 = exp_.export_pitch(q)
+                    t2 = exp_.export_pitch(q)
+                    got_e = f'{t1}|{t2}|{q.name}|{q.octave}'
+                except Exception:
+                    got_e = 'raise'
+                if got_i != f'{names[k]}|{o}' and bad_h is None:
+                    bad_h = ('history-import', f'one importer instance: import_pitch({texts[k]!r}) = {got_i} after earlier imports, expected {names[k]}|{o}',
+                             {'spelling': texts[k], 'order': 'shared-instance'})
+                if got_e != f'{texts[k]}|{texts[k]}|{names[k]}|{o}' and bad_h is None:
+                    bad_h = ('history-export', f'one exporter instance: export_pitch({names[k]},{o}) twice = {got_e} after earlier exports, expected {texts[k]!r}',
+                             {'name': names[k], 'octave': o, 'order': 'shared-instance'})
+            chk.distinct.add(('history', tuple(order[:8])))
+            if bad_h:
+                chk.violation(*bad_h)
     # malformed / unusual spellings: model vs impl only (outside the property's quantifier)
     if model:
         odd = ['', 'c#-', 'cC', 'ccn', 'E-X', 'h', 'c1', '#', '--', 'cd', 'Cc#', 'r', 'cc##-', 'c####', 'c----',
